@@ -1,4 +1,4 @@
-package camp
+package model
 
 import (
 	"fmt"
@@ -8,8 +8,6 @@ import (
 	"unicode"
 
 	"github.com/goccmack/gocc/verifx/internal/gram"
-	"github.com/goccmack/gocc/verifx/internal/model"
-	"github.com/goccmack/gocc/verifx/internal/run"
 )
 
 // M-SPEC: spec/gocc2.ebnf read by a small reader of its own (productions, |, quoted
@@ -18,8 +16,8 @@ import (
 
 type MSpec struct {
 	G      *gram.Grammar
-	CFG    *model.CFG
-	Earley *model.Earley
+	CFG    *CFG
+	Earley *Earley
 }
 
 func readSpecTokens(src string) ([]string, error) {
@@ -74,8 +72,8 @@ func readSpecTokens(src string) ([]string, error) {
 }
 
 // LoadMSpec reads <repo>/spec/gocc2.ebnf.
-func LoadMSpec() (*MSpec, error) {
-	b, err := os.ReadFile(filepath.Join(run.RepoDir, "spec", "gocc2.ebnf"))
+func LoadMSpec(repoDir string) (*MSpec, error) {
+	b, err := os.ReadFile(filepath.Join(repoDir, "spec", "gocc2.ebnf"))
 	if err != nil {
 		return nil, err
 	}
@@ -125,15 +123,15 @@ func LoadMSpec() (*MSpec, error) {
 			}
 		}
 	}
-	cfg, err := model.NewCFG(g)
+	cfg, err := NewCFG(g)
 	if err != nil {
 		return nil, err
 	}
-	return &MSpec{G: g, CFG: cfg, Earley: model.NewEarley(cfg)}, nil
+	return &MSpec{G: g, CFG: cfg, Earley: NewEarley(cfg)}, nil
 }
 
 // TermName maps a front-end token type to the spec's terminal name.
-func specTermName(typ string) string {
+func SpecTermName(typ string) string {
 	if typ == "error" || typ == "empty" {
 		return "kw:" + typ
 	}
@@ -144,7 +142,7 @@ func specTermName(typ string) string {
 func (m *MSpec) Accepts(types []string) bool {
 	ids := make([]int, len(types))
 	for i, t := range types {
-		id, ok := m.CFG.TermID(specTermName(t))
+		id, ok := m.CFG.TermID(SpecTermName(t))
 		if !ok {
 			return false
 		}
